@@ -467,16 +467,33 @@ def part_from_matchfile(
         max_time_q,
     ) = make_timesig_maps(ts, max_time)
 
+    # position in quarters of a position in beats (piecewise linear in
+    # the time signature segments; `beat_type_map` and `beats_map` take
+    # positions in quarters, the `*_from_beats` maps positions in beats)
+    ts_beat_times = np.array([tbt for tbt, _, _ in ts], dtype=float)
+    ts_beat_types = np.array([tsg.denominator for _, _, tsg in ts], dtype=float)
+    ts_quarter_times = np.cumsum(
+        np.r_[
+            ts_beat_times[0] * 4 / ts_beat_types[0],
+            4 * np.diff(ts_beat_times) / ts_beat_types[:-1],
+        ]
+    )
+
+    def beats_to_quarters(b):
+        b = np.asarray(b, dtype=float)
+        idx = np.clip(np.searchsorted(ts_beat_times, b, side="right") - 1, 0, None)
+        return ts_quarter_times[idx] + (b - ts_beat_times[idx]) * 4 / ts_beat_types[idx]
+
     # compute necessary divs based on the types of notes in the
     # match snotes (only integers)
     divs_arg = [
-        max(int((beat_type_map(note.OnsetInBeats) / 4)), 1)
+        max(int((beat_type_map_from_beats(note.OnsetInBeats) / 4)), 1)
         * note.Offset.denominator
         * (note.Offset.tuple_div or 1)
         for note in snotes
     ]
     divs_arg += [
-        max(int((beat_type_map(note.OnsetInBeats) / 4)), 1)
+        max(int((beat_type_map_from_beats(note.OnsetInBeats) / 4)), 1)
         * note.Duration.denominator
         * (note.Duration.tuple_div or 1)
         for note in snotes
@@ -485,14 +502,7 @@ def part_from_matchfile(
     onset_in_beats = np.array([note.OnsetInBeats for note in snotes])
     unique_onsets, inv_idxs = np.unique(onset_in_beats, return_inverse=True)
 
-    iois_in_beats = np.diff(unique_onsets)
-    beat_to_quarter = 4 / beat_type_map(onset_in_beats)
-
-    iois_in_quarters_offset = np.r_[
-        beat_to_quarter[0] * onset_in_beats[0],
-        (4 / beat_type_map(unique_onsets[:-1])) * iois_in_beats,
-    ]
-    onset_in_quarters = np.cumsum(iois_in_quarters_offset)
+    onset_in_quarters = beats_to_quarters(unique_onsets)
     iois_in_quarters = np.diff(onset_in_quarters)
 
     # ___ these divs are relative to quarters;
@@ -502,8 +512,7 @@ def part_from_matchfile(
 
     part.set_quarter_duration(0, divs)
     bars = np.unique([n.Measure for n in snotes])
-    t = min_time
-    t = t * 4 / beat_type_map(min_time)
+    t = float(beats_to_quarters(min_time))
     offset = t
     bar_times = {}
 
